@@ -194,7 +194,10 @@ func TestC03Net(t *testing.T) {
 	for _, p := range []int{hlref.PrivDeleteUser, hlref.PrivModifyUser} { // the well-behaved account cannot be disconnected
 		limited.Clear(p)
 	}
-	must(os.WriteFile(filepath.Join(cfg, "Users", "good.yaml"), hlsim.AccountYAML(hlsim.AccountSpec{Login: "good", Name: "Good", Password: "gpw", Access: hlref.AllAccess()}), 0o644))
+	// the well-behaved account has a file root of its own: the hostile sessions (which may delete and rename) cannot touch its file
+	must(os.MkdirAll(filepath.Join(cfg, "GoodFiles"), 0o755))
+	must(os.WriteFile(filepath.Join(cfg, "GoodFiles", "f.txt"), []byte("the well-behaved client's content"), 0o644))
+	must(os.WriteFile(filepath.Join(cfg, "Users", "good.yaml"), hlsim.AccountYAML(hlsim.AccountSpec{Login: "good", Name: "Good", Password: "gpw", Access: hlref.AllAccess(), FileRoot: filepath.Join(cfg, "GoodFiles")}), 0o644))
 	must(os.WriteFile(filepath.Join(cfg, "Users", "hostile.yaml"), hlsim.AccountYAML(hlsim.AccountSpec{Login: "hostile", Name: "Hostile", Password: "hpw", Access: limited}), 0o644))
 	port := freePortPair() + shard*2
 	logPath := filepath.Join(cfg, "child.log")
@@ -258,13 +261,63 @@ func TestC03Net(t *testing.T) {
 		src   string
 		kind  string
 		bytes []byte
+		xfer  bool // sent to the transfer port (base port + 1)
+	}
+	// the well-behaved client's download through the transfer port, before and after the storm
+	download := func(when string) {
+		r, err := sentinel.request(hlref.TranDownloadFile, 60*time.Second, hlref.F(hlref.FFileName, []byte("f.txt")))
+		if err != nil || r.Err != 0 {
+			if !alive() {
+				t.Fatalf("VERIF-VIOLATION C03 the server process terminated (%s):\n%s", when, childLog())
+			}
+			t.Fatalf("VERIF-INCONCLUSIVE %s: download request of the well-behaved client not granted within 60 s: %v", when, err)
+		}
+		ref, _ := r.Get(hlref.FRefNum)
+		var r4 [4]byte
+		copy(r4[:], ref)
+		c, err := dialFrom("127.0.0.2", port+1, 10*time.Second)
+		if err != nil {
+			t.Fatalf("VERIF-VIOLATION C03 %s: the well-behaved client cannot reach the transfer port (base port + 1) for a granted download: %v\n%s", when, err, childLog())
+		}
+		defer c.Close()
+		c.Write(hlref.Preamble(r4, 0))
+		c.SetReadDeadline(time.Now().Add(60 * time.Second))
+		var got []byte
+		buf := make([]byte, 4096)
+		for !bytes.HasSuffix(got, []byte("content")) {
+			n, err := c.Read(buf)
+			got = append(got, buf[:n]...)
+			if err != nil {
+				break
+			}
+		}
+		if !bytes.HasSuffix(got, []byte("content")) {
+			if !alive() {
+				t.Fatalf("VERIF-VIOLATION C03 the server process terminated (%s):\n%s", when, childLog())
+			}
+			t.Fatalf("VERIF-VIOLATION C03 %s: the well-behaved client's granted download delivered %d bytes that do not end with the file's data within 60 s", when, len(got))
+		}
 	}
 	base := c03BaseSimple()
 	var plans []plan
 	for i := 0; i < nconn; i++ {
 		var p plan
 		p.src = fmt.Sprintf("127.%d.%d.%d", 10+i/60000, (i/250)%240+1, i%250+3)
-		switch next(7) {
+		switch next(9) {
+		case 7:
+			// the transfer port: garbage, or a well-formed preamble for a reference number nobody was given
+			p.kind, p.xfer = "xfer-garbage", true
+			b := make([]byte, 1+next(64))
+			for k := range b {
+				b[k] = byte(next(256))
+			}
+			p.bytes = b
+		case 8:
+			p.kind, p.xfer = "xfer-unknown-ref", true
+			p.bytes = hlref.Preamble([4]byte{byte(next(256)), byte(next(256)), byte(next(256)), byte(next(256))}, next(100000))
+			if next(2) == 0 {
+				p.bytes = p.bytes[:1+next(15)]
+			}
 		case 6:
 			// the 1.5 flow cut short: logged in, never agreed, gone
 			p.kind = "login15-never-agreed"
@@ -305,6 +358,7 @@ func TestC03Net(t *testing.T) {
 		plans = append(plans, p)
 	}
 	sentinel.startReader()
+	download("before the storm")
 	// "all its resources released": the user list must converge to the one well-behaved client.  No wall-clock
 	// allowance decides: a count that is still falling is slowness (busy machine), a count that stays above one
 	// for 60 s while the server answers is a leak; 5 minutes without convergence is inconclusive.
@@ -350,7 +404,11 @@ func TestC03Net(t *testing.T) {
 			go func(p plan) {
 				defer wg.Done()
 				defer func() { <-sem }()
-				c, err := dialFrom(p.src, port, 3*time.Second)
+				dst := port
+				if p.xfer {
+					dst = port + 1
+				}
+				c, err := dialFrom(p.src, dst, 3*time.Second)
 				if err != nil {
 					refused.Add(1)
 					return
@@ -374,6 +432,7 @@ func TestC03Net(t *testing.T) {
 		}
 		converge(fmt.Sprintf("after hostile connections %d-%d were made", lo, hi))
 	}
+	download("after the storm")
 	if r, err := sentinel.request(hlref.TranKeepAlive, 60*time.Second); err != nil || r.Err != 0 {
 		if !alive() {
 			t.Fatalf("VERIF-VIOLATION C03 the server process terminated:\n%s", childLog())
